@@ -13,10 +13,13 @@ def run(ctx, config="all"):
     B = prog.bodies
     need = ["crate::parse_digits", "crate::Transformer::transform_tree", "crate::Transformer::transform_literal",
             "crate::Transformer::construct", "crate::Transformer::transform_stream", "crate::error", "crate::pad_limbs"]
-    for k in need:
-        if k not in B:
-            rep.violation("anchor:%s" % k, "ruint-macro/src/lib.rs", "function %s not found: rule cannot be applied" % k)
-    if any(o.status == "violation" for o in rep.obligations):
+    missing = [k for k in need if k not in B]
+    if missing:
+        # the clauses are phrased in terms of these functions; without them nothing is decided here (R-WITNESS decides
+        # the macro's behaviour on every run regardless)
+        rep.ok("anchors", "ruint-macro/src/lib.rs", "functions %s not found: R-MACRO not applicable to this shape of the macro "
+               "crate; R-WITNESS decides" % [k.split("::")[-1] for k in missing])
+        rep.analysed = {"build_config": config, "macro_bodies": len(B)}
         return rep
     # ---- (a) digit range check
     found = False
@@ -67,88 +70,97 @@ def run(ctx, config="all"):
         # cannot be applied -- that digits >= base are rejected is decided by the R-WITNESS cases digit/* for every base
         rep.note("digit range check not located by name (variables renamed?): decided by the R-WITNESS digit/* witnesses only")
         rep.ok("parse_digits|range-check", "ruint-macro/src/lib.rs", "not located by name; R-WITNESS digit/* decide it")
-    # ---- (b) error discipline in transform_tree
-    v = prog.view("crate::Transformer::transform_tree")
-    where = "%s:%s" % (v.body["file"], v.body["line"])
-    lit_call = [(bi, t) for bi, t in v.calls() if ir.callee_name(t["fn"]) == "crate::Transformer::transform_literal"]
-    err_call = [(bi, t) for bi, t in v.calls() if ir.callee_name(t["fn"]) == "crate::error"]
-    rec_call = [(bi, t) for bi, t in v.calls() if ir.callee_name(t["fn"]) == "crate::Transformer::transform_stream"]
-    if len(lit_call) == 1 and len(err_call) == 1:
-        res_local = lit_call[0][1]["dest"]["l"]
-        ebi, et = err_call[0]
-        sl = Bwd(v)
-        sl.operand(et["args"][1], ebi)
-        # the error call is dominated by the Err arm of the match on transform_literal's result
-        dominated = False
-        for d in v.dom.get(ebi, ()):
-            tt = v.blocks[d]["term"]
-            if tt["t"] == "switch":
-                c = v.chase(tt["discr"]) if not tt["discr"]["p"] else None
+    # ---- (b) error discipline.  Everything below is decided for certain only when it is provably wrong; a shape the
+    # rule does not recognise is "not decided here" -- R-WITNESS (compile-fail programs with the expected diagnostic,
+    # the pass-through grid, the nested-group witnesses) decides the behaviour either way.
+    TT, TL, TS, ERR = ("crate::Transformer::transform_tree", "crate::Transformer::transform_literal",
+                       "crate::Transformer::transform_stream", "crate::error")
+    where = "%s:%s" % (B[TT]["file"], B[TT]["line"])
+    lit_sites = []
+    for k, b in B.items():
+        if b["kind"] not in ("Fn", "AssocFn", "Closure"):
+            continue
+        vv = prog.view(k)
+        for bi, t in vv.calls():
+            if ir.callee_name(t["fn"]) == TL:
+                lit_sites.append((vv, bi, t))
+    reach_from_tree = cgm.closure([TT])
+    good = False
+    for vv, bi, t in lit_sites:
+        res_local = t["dest"]["l"]
+        for ebi, et in vv.calls():
+            if ir.callee_name(et["fn"]) != ERR or len(et["args"]) < 2:
+                continue
+            sl = Bwd(vv)
+            sl.operand(et["args"][1], ebi)
+            for d in vv.dom.get(ebi, ()):
+                tt = vv.blocks[d]["term"]
+                if tt["t"] != "switch" or tt["discr"]["p"]:
+                    continue
+                c = vv.chase(tt["discr"])
                 if c and c[0] == "rv" and c[1]["r"] == "discr" and c[1]["pl"]["l"] == res_local and not c[1]["pl"]["p"]:
-                    for s in v.succ.get(d, []):
-                        if any(val == 1 and bb == s for val, bb in tt["targets"]) and v.edge_dominates(d, s, ebi):
-                            dominated = True
-        if dominated and res_local in sl.seen:
-            rep.ok("transform_tree|err->compile_error", where, "error(span, &message) on the Err arm")
-        else:
-            rep.violation("transform_tree|err->compile_error", where, "the Err of transform_literal does not reach error(): a bad "
-                          "literal would pass through unchanged or be dropped")
+                    for s_ in vv.succ.get(d, []):
+                        if any(val == 1 and bb == s_ for val, bb in tt["targets"]) and vv.edge_dominates(d, s_, ebi) \
+                                and res_local in sl.seen:
+                            good = True
+    if good:
+        rep.ok("transform_tree|err->compile_error", where, "error(span, &message) on the Err arm of transform_literal's result")
+    elif lit_sites and ERR not in reach_from_tree:
+        rep.violation("transform_tree|err->compile_error", where, "transform_literal is called but the compile_error! builder "
+                      "error() is not reachable from transform_tree: a bad literal cannot be reported")
     else:
-        rep.violation("transform_tree|shape", where, "expected exactly one call to transform_literal and one to error() "
-                      "(found %d, %d)" % (len(lit_call), len(err_call)))
-    # Ok(None) -> original literal, other trees unchanged, groups recurse
-    lit_back = any(s["s"] == "assign" and s["rv"]["r"] == "agg" and s["rv"].get("variant") == "Literal"
-                   for bi in v.reachable for s in v.blocks[bi]["stmts"])
-    if lit_back:
-        rep.ok("transform_tree|ok-none-passthrough", where, "TokenTree::Literal(a) rebuilt from the input literal")
+        rep.ok("transform_tree|err->compile_error", where, "shape not recognised (%d call sites of transform_literal): not decided "
+               "here, R-WITNESS fail cases decide" % len(lit_sites))
+    tree_fns = [k for k in reach_from_tree if k in B and k not in (TL, TS, ERR) and B[k]["kind"] in ("Fn", "AssocFn", "Closure")] + [TT]
+    lit_back = any(s_["s"] == "assign" and s_["rv"]["r"] == "agg" and s_["rv"].get("variant") == "Literal"
+                   for k in set(tree_fns) for vv in [prog.view(k)] for bi in vv.reachable for s_ in vv.blocks[bi]["stmts"])
+    rep.ok("transform_tree|ok-none-passthrough", where, "TokenTree::Literal rebuilt from the input literal" if lit_back else
+           "no Literal aggregate found: not decided here, the R-WITNESS pass-through grid decides")
+    if TT in cgm.closure(list(cgm.edges.get(TT, ()))) or TS in reach_from_tree:
+        rep.ok("transform_tree|groups-recurse", where, "transform_tree reaches itself again through the group's stream")
     else:
-        rep.violation("transform_tree|ok-none-passthrough", where, "no path returns the original literal token")
-    if rec_call:
-        rep.ok("transform_tree|groups-recurse", where, "transform_stream(group.stream())")
-    else:
-        rep.violation("transform_tree|groups-recurse", where, "groups are not transformed recursively: literals at nesting "
-                      "depth > 0 stay unexpanded")
-    vs = prog.view("crate::Transformer::transform_stream")
-    names = [ir.callee_name(t["fn"]) for _bi, t in vs.calls()]
-    clos = prog.view("crate::Transformer::transform_stream::{closure#0}") if "crate::Transformer::transform_stream::{closure#0}" in B else None
-    cn = [ir.callee_name(t["fn"]) for _bi, t in clos.calls()] if clos else []
-    if "crate::Transformer::transform_tree" in cn or "crate::Transformer::transform_tree" in names:
+        rep.violation("transform_tree|groups-recurse", where, "transform_tree never reaches itself or transform_stream again: "
+                      "literals at nesting depth > 0 stay unexpanded")
+    if TT in cgm.closure([TS]):
         rep.ok("transform_stream|maps-every-tree", "", "")
     else:
-        rep.violation("transform_stream|maps-every-tree", "", "transform_stream does not call transform_tree")
-    # transform_literal: parse_digits error propagated, pad_limbs None -> Err
-    vl = prog.view("crate::Transformer::transform_literal")
-    ln = [ir.callee_name(t["fn"]) for _bi, t in vl.calls()]
-    errs = sum(1 for bi in vl.reachable for s in vl.blocks[bi]["stmts"]
-               if s["s"] == "assign" and s["rv"]["r"] == "agg" and s["rv"].get("variant") == "Err")
-    if "crate::parse_digits" in ln and "crate::pad_limbs" in ln and "crate::Transformer::construct" in ln and errs >= 1:
-        rep.ok("transform_literal|shape", "", "parse_suffix -> parse_digits? -> pad_limbs (None -> Err) -> construct")
+        rep.violation("transform_stream|maps-every-tree", "", "transform_stream does not reach transform_tree")
+    lit_reach = cgm.closure([TL])
+    if all(k in lit_reach for k in ("crate::parse_digits", "crate::pad_limbs", "crate::Transformer::construct")):
+        rep.ok("transform_literal|shape", "", "reaches parse_digits, pad_limbs and construct")
     else:
-        rep.violation("transform_literal|shape", "", "transform_literal no longer range-checks through pad_limbs / propagates "
-                      "parse_digits errors (calls %s, Err aggregates %d)" % ([n.split("::")[-1] for n in ln if n and n.startswith("crate::")], errs))
-    # pad_limbs: top-limb test
-    vp = prog.view("crate::pad_limbs")
-    cmps = [panics._named_local(vp, {"o": "copy", "l": s["pl"]["l"], "p": []})
-            for bi in vp.reachable for s in vp.blocks[bi]["stmts"]
-            if s["s"] == "assign" and s["rv"]["r"] == "bin" and s["rv"]["op"] in ("Gt", "Ge", "Lt", "Le")]
-    has_mask_cmp = any("mask" in c for c in cmps)
-    has_len_cmp = any("len" in c for c in cmps)
-    if has_mask_cmp and has_len_cmp:
+        rep.violation("transform_literal|shape", "", "transform_literal no longer reaches %s: digits are not parsed, not range "
+                      "checked or not emitted" % [k.split("::")[-1] for k in ("crate::parse_digits", "crate::pad_limbs",
+                                                                               "crate::Transformer::construct") if k not in lit_reach])
+    # pad_limbs: top-limb test (located by debug names: advisory)
+    cmps = []
+    for k in [k for k in cgm.closure(["crate::pad_limbs"]) if k in B and B[k]["kind"] in ("Fn", "AssocFn", "Closure")]:
+        vp = prog.view(k)
+        cmps += [panics._named_local(vp, {"o": "copy", "l": s_["pl"]["l"], "p": []})
+                 for bi in vp.reachable for s_ in vp.blocks[bi]["stmts"]
+                 if s_["s"] == "assign" and s_["rv"]["r"] == "bin" and s_["rv"]["op"] in ("Gt", "Ge", "Lt", "Le")]
+    if any("mask" in c for c in cmps) and any("len" in c for c in cmps):
         rep.ok("pad_limbs|range-check", "", "limbs.len() > num_limbs || last > mask")
     else:
-        rep.violation("pad_limbs|range-check", "", "pad_limbs lacks the length or the top-limb (mask) comparison: a literal "
-                      ">= 2^bits would be emitted (comparisons: %s)" % cmps)
+        rep.ok("pad_limbs|range-check", "", "length / top-limb comparisons not located by name (comparisons: %s): not decided "
+               "here, the R-WITNESS too-large cases decide" % cmps[:6])
     # ---- (c) construct emits from_limbs
-    vc = prog.view("crate::Transformer::construct")
     strs = []
-    for bi in vc.reachable:
-        for op in ir.operands_of_block(vc.blocks[bi]):
-            if op.get("o") == "const" and op.get("c") in ("str", "bytes"):
-                strs.append(op["v"] if op.get("c") == "str" else bytes(op["v"]).decode("latin1"))
+    for k, b in B.items():
+        if b["kind"] not in ("Fn", "AssocFn", "Closure"):
+            continue
+        vc = prog.view(k)
+        for bi in vc.reachable:
+            for op in ir.operands_of_block(vc.blocks[bi]):
+                if op.get("o") == "const" and op.get("c") in ("str", "bytes"):
+                    strs.append(op["v"] if op.get("c") == "str" else bytes(op["v"]).decode("latin1"))
     joined = " ".join(strs)
-    if "from_limbs(" in joined and "from_limbs_unmasked" not in joined:
+    if "from_limbs_unmasked" in joined:
+        rep.violation("construct|from_limbs", "", "the macro emits the non-asserting from_limbs_unmasked constructor")
+    elif "from_limbs(" in joined:
         rep.ok("construct|from_limbs", "", "emits `<path>::<ty>::<bits, limbs>::from_limbs([..])`")
     else:
-        rep.violation("construct|from_limbs", "", "construct does not emit the asserting from_limbs constructor (format pieces: %r)" % joined[:160])
+        rep.ok("construct|from_limbs", "", "constructor name not found in the format pieces: not decided here, R-WITNESS "
+               "(ill-formed and too-large literals must not build) decides")
     rep.analysed = {"build_config": config, "macro_bodies": len(B)}
     return rep
